@@ -23,6 +23,7 @@ import (
 	"io"
 	"math"
 	"net"
+	"strings"
 	"sync"
 	"sync/atomic"
 	"time"
@@ -613,7 +614,9 @@ func (c *CqlServerConnection) readFrame(source io.Reader) (abort bool) {
 		abort = c.reportConnectionFailure(err, true)
 	} else {
 		if startup, ok := incoming.Body.Message.(*message.Startup); ok {
-			c.compression = startup.GetCompression()
+			// algorithm names are not case-sensitive: the protocol specifications and most drivers spell them in
+			// lower case ("lz4", "snappy"), the constants of package primitive are in upper case
+			c.compression = primitive.Compression(strings.ToUpper(string(startup.GetCompression())))
 			c.frameCodec = frame.NewCodecWithCompression(NewBodyCompressor(c.compression))
 			c.segmentCodec = segment.NewCodecWithCompression(NewPayloadCompressor(c.compression))
 		}
